@@ -427,6 +427,8 @@ pub enum Mutation {
     ByteDrop(usize),
     ByteDup(usize),
     ByteSet { at: usize, val: u8 },
+    /// two structural mutations, one after the other
+    Both(Box<Mutation>, Box<Mutation>),
 }
 
 #[derive(Clone, Debug, Serialize, Deserialize)]
@@ -463,62 +465,66 @@ fn encode(v: &Value, wire: Wire) -> Vec<u8> {
 /// Applies a structural mutation to the document tree. Returns None when the
 /// mutation does not apply (index out of range).
 fn mutate_value(v: &Value, m: &Mutation) -> Option<Value> {
+    if let Mutation::Both(a, b) = m {
+        let x = mutate_value(v, a)?;
+        return mutate_value(&x, b);
+    }
     let mut v = v.clone();
     {
         let top = v.as_array_mut()?;
         match m {
             Mutation::DropNode(i) => {
-                let a = top[0].as_array_mut()?;
+                let a = top.get_mut(0)?.as_array_mut()?;
                 if *i >= a.len() {
                     return None;
                 }
                 a.remove(*i);
             }
             Mutation::DupNode(i) => {
-                let a = top[0].as_array_mut()?;
+                let a = top.get_mut(0)?.as_array_mut()?;
                 let x = a.get(*i)?.clone();
                 a.push(x);
             }
             Mutation::RedeclareNode(i) => {
-                let a = top[0].as_array_mut()?;
+                let a = top.get_mut(0)?.as_array_mut()?;
                 let mut x = a.get(*i)?.clone();
-                x[1] = serde_json::json!([77, 7777]);
+                *x.get_mut(1)? = serde_json::json!([77, 7777]);
                 a.push(x);
             }
             Mutation::DropEdge(i) => {
-                let a = top[1].as_array_mut()?;
+                let a = top.get_mut(1)?.as_array_mut()?;
                 if *i >= a.len() {
                     return None;
                 }
                 a.remove(*i);
             }
             Mutation::DupEdge(i) => {
-                let a = top[1].as_array_mut()?;
+                let a = top.get_mut(1)?.as_array_mut()?;
                 let x = a.get(*i)?.clone();
                 a.push(x);
             }
             Mutation::Retarget { edge, end, key } => {
-                let a = top[1].as_array_mut()?;
+                let a = top.get_mut(1)?.as_array_mut()?;
                 let x = a.get_mut(*edge)?;
-                x[*end] = serde_json::json!(key);
+                *x.get_mut(*end)? = serde_json::json!(key);
             }
             Mutation::RetypeNodeKey(i) => {
-                let a = top[0].as_array_mut()?;
+                let a = top.get_mut(0)?.as_array_mut()?;
                 let x = a.get_mut(*i)?;
-                x[0] = serde_json::json!("zero");
+                *x.get_mut(0)? = serde_json::json!("zero");
             }
             Mutation::RetypeEdgeValue(i) => {
-                let a = top[1].as_array_mut()?;
+                let a = top.get_mut(1)?.as_array_mut()?;
                 let x = a.get_mut(*i)?;
-                x[2] = serde_json::json!({"v": 1});
+                *x.get_mut(2)? = serde_json::json!({"v": 1});
             }
             Mutation::ShortenEdge(i) => {
-                let a = top[1].as_array_mut()?;
+                let a = top.get_mut(1)?.as_array_mut()?;
                 let x = a.get_mut(*i)?.as_array_mut()?;
                 x.pop();
             }
             Mutation::ShortenNode(i) => {
-                let a = top[0].as_array_mut()?;
+                let a = top.get_mut(0)?.as_array_mut()?;
                 let x = a.get_mut(*i)?.as_array_mut()?;
                 x.pop();
             }
@@ -532,13 +538,13 @@ fn mutate_value(v: &Value, m: &Mutation) -> Option<Value> {
                 top.push(serde_json::json!([1, 2, 3]));
             }
             Mutation::NodesNotAList => {
-                top[0] = serde_json::json!(5);
+                *top.get_mut(0)? = serde_json::json!(5);
             }
             Mutation::EdgesNotAList => {
-                top[1] = serde_json::json!("edges");
+                *top.get_mut(1)? = serde_json::json!("edges");
             }
             Mutation::TopLevelMap => {
-                return Some(serde_json::json!({"nodes": top[0].clone(), "edges": top[1].clone()}));
+                return Some(serde_json::json!({"nodes": top.first()?.clone(), "edges": top.get(1)?.clone()}));
             }
             _ => return None,
         }
@@ -829,6 +835,19 @@ impl Engine for Untrusted {
             Mutation::EdgesNotAList,
             Mutation::TopLevelMap,
         ]);
+        // seeded: pairs of structural mutations
+        let structural: Vec<Mutation> = mutations
+            .iter()
+            .filter(|m| !matches!(m, Mutation::None | Mutation::Truncate(_) | Mutation::DropBoth | Mutation::TopLevelMap))
+            .cloned()
+            .collect();
+        if structural.len() >= 2 {
+            for _ in 0..(if tier == Tier::Quick { 12 } else { 40 }) {
+                let a = structural[rng.below(structural.len())].clone();
+                let b = structural[rng.below(structural.len())].clone();
+                mutations.push(Mutation::Both(Box::new(a), Box::new(b)));
+            }
+        }
         // seeded: byte-level damage
         let nrand = if tier == Tier::Quick { 24 } else { 64 };
         for _ in 0..nrand {
